@@ -223,3 +223,25 @@ can_fold = Contract(
     properties=("C04",), min_obligations=2, no_replay=True,
 )
 CONTRACTS += [depends, can_fold, dep_rec]
+
+# =================================================================================================
+# MemoryBuilder._find_first_memory_consumer: the first arithmetic node that reads the cell — whether the read is its LEFT or
+# its RIGHT operand — is found; None only if no arithmetic node reads it.  (Concrete node table of three nodes.)
+# =================================================================================================
+def _sref(nid):
+    return ty.TObj("SignalRef", only=("SignalRef",), ftypes=(("source_id", ty.TConcrete(nid)),))
+
+
+def _consumer_contract(left, right, want):
+    arith = ty.TObj("IRArith", only=("IRArith",), ftypes=(("left", left), ("right", right)))
+    return Contract(
+        qualname=MB + "_find_first_memory_consumer",
+        params={"self": ty.TObj("MemoryBuilder", only=("MemoryBuilder",)), "memory_id": ty.TConcrete("mem_m")},
+        ensures=[("the arithmetic node reading the cell (left or right operand) is returned; None iff there is none", lambda a, res: res == want if want is not None else res is None)],
+        dynamic_types={"self": {"_read_sources": ty.TConcrete({"other_read": "mem_x", "r1": "mem_m"}),
+                                "_ir_nodes": ty.TRecord((("r1", ty.TObj("IRMemRead", only=("IRMemRead",))), ("k", ty.TObj("IRConst", only=("IRConst",))), ("n1", arith)))}},
+        properties=("C04",), min_obligations=1, no_replay=True, note=f"node n1 = {('read' if left is not ty.Int and left.ftypes[0][1].value == 'r1' else 'x')} op {('read' if right is not ty.Int and right.ftypes[0][1].value == 'r1' else 'x')}")
+
+
+CONTRACTS += [_consumer_contract(_sref("r1"), ty.Int, "n1"), _consumer_contract(ty.Int, _sref("r1"), "n1"),
+              _consumer_contract(_sref("k"), _sref("r1"), "n1"), _consumer_contract(_sref("k"), ty.Int, None)]
